@@ -4,7 +4,7 @@
 Require Import List ZArith Arith Lia.
 From Dasp Require Import Base.Res Base.ListX Ring.Bounded Ring.BoundedSpec Ring.BoundedProofs
   Ring.Fixed Ring.FixedSpec Ring.FixedProofs Ring.RingPrim Ring.RingGenGlue Ring.RingExamples.
-From DaspGen Require Import RingGen.
+From DaspGen Require Import RingGen RingGenCk.
 Import ListNotations.
 
 (* the wrapped buffer (capacity 3, start 2, live 30 then 10) through the interpreter over the generated methods *)
@@ -52,3 +52,13 @@ Example ex_gen_div_zero :
 Proof. split; reflexivity. Qed.
 Example ex_gen_ctor : Bounded_from_raw_parts 3 0 [1; 2; 3]%Z = Panic PAssert /\ Fixed_from (@nil Z) = Panic PAssert.
 Proof. split; reflexivity. Qed.
+
+(* c06_gen_no_index_overflow: its hypotheses are met (modulus 6, the wrapped buffer of capacity 3 and the delay line of
+   length 3), the checked reading really panics beyond them (capacity 3 under modulus 4: start + len = 2 + 2 reaches it) *)
+Example ex_gen_ck_fits : Inv ex_b /\ 2 * max_len ex_b <= 6 /\ InvF ex_f /\ 2 * flen ex_f <= 6.
+Proof. unfold Inv, InvF, max_len, flen; cbn; lia. Qed.
+Example ex_gen_ck_runs : Fixed_get_ck 6 ex_f 5 = Ok 1%Z /\ Bounded_get_ck 6 ex_b 1 = Ok (Some 10%Z).
+Proof. split; reflexivity. Qed.
+Example ex_gen_ck_panics_outside :
+  Bounded_push_ck 4 ex_b 7%Z = Panic POverflow /\ exists r, Bounded_push ex_b 7%Z = Ok r.
+Proof. split; [reflexivity|eexists; reflexivity]. Qed.
